@@ -235,6 +235,79 @@ def front_end_nulls(ctx, R):
              "a path returns with the statement context %s: every enclosing popUp() then restores the wrong parent, which later dangles or makes the up-chain cyclic "
              "(`if (b) { do { a--; } while (--a); } a--;` crashed the parser)" % ("still pushed (depth %+d)" % bad[0] if bad[0] > 0 else "popped once too often"), path=bad[1] if bad else None)
 
+    # ---- R7: for (j ...) delete v[i]; ---------------------------------------------------------------------------------------------------
+    for f in mine:
+        for lp in f.walk():
+            if lp["k"] != "ForStmt" or lp.get("mac"):
+                continue
+            changed = set()
+            for w in walk(lp):
+                t = write_target(w)
+                if t is not None and strip(t)["k"] == "DeclRefExpr":
+                    changed.add(strip(t).get("d"))
+            body = kids(lp)[-1]
+            for dl in walk(body):
+                if dl["k"] != "CXXDeleteExpr":
+                    continue
+                inner = [a for a in f.ancestors(dl) if a["k"] in ("ForStmt", "WhileStmt", "DoStmt", "CXXForRangeStmt")]
+                if not inner or inner[0]["i"] != lp["i"]:
+                    continue
+                # executed more than once only if control can come back to it without leaving the loop
+                cfg = f.cfg
+                pd = cfg.position(dl)
+                if pd is None or cfg.find_path(pd, lambda b, i, e, dl=dl: e == dl["i"], lambda b, i, e: False) is None:
+                    continue
+                used = {x.get("d") for x in walk(dl) if x["k"] == "DeclRefExpr"}
+                declared_inside = {v["d"] for v in walk(body) if v["k"] == "VarDecl"}
+                if used & declared_inside:
+                    used |= changed           # a per-iteration local (reference / pointer taken inside the body)
+                # a local declared inside the body and initialised from a changing variable counts too
+                for v in walk(body):
+                    if v["k"] == "VarDecl" and v["d"] in used and any(x["k"] == "DeclRefExpr" and x.get("d") in changed for x in walk(v)):
+                        used |= changed
+                ok = bool(used & changed)
+                R.ob("C16-R7", ok, f.q, "delete %s" % noid(render(kids(dl)[0], False))[:40], f.site(dl),
+                     "a different object on every iteration" if ok else
+                     "the loop deletes the same object on every iteration (the operand does not depend on anything the loop changes): double free / use-after-free "
+                     "(`#define X # y` crashed in macro_t::stringifyMacroTokens)")
+
+    # ---- R8: who deletes macros ------------------------------------------------------------------------------------------------------------
+    n8 = 0
+    for f in mine:
+        if not f.q.startswith("occa::lang::preprocessor_t::"):
+            continue
+        for dl in f.walk():
+            if dl["k"] != "CXXDeleteExpr" or "macro_t" not in f.type(strip(kids(dl)[0])):
+                continue
+            n8 += 1
+            op = strip(kids(dl)[0])
+            txt = noid(render(op, False))
+            ok, why = False, "the operand is not an entry of a macro map"
+            if is_call(op) and callee(op).endswith("::getMacro"):
+                # delete getMacro(k) is the entry it->second when `it = M.find(k)` found k in the map getMacro consults first
+                key = noid(render(call_args(op)[0], False))
+                cfg = f.cfg
+                fs_ = {(noid(k), pol) for (k, pol) in cfg.facts_at(dl)}
+                its = [v for v in f.walk() if v["k"] in ("VarDecl", "BinaryOperator", "CXXOperatorCallExpr") and "sourceMacros.find(%s)" % key in noid(render(v, False))]
+                found = any((not pol) and "sourceMacros.end()" in k and "==" in k for (k, pol) in fs_) or any(pol and "sourceMacros.end()" in k and "!=" in k for (k, pol) in fs_)
+                erases = [c for c in f.walk() if is_call(c) and callee(c).endswith("::erase") and "sourceMacros" in noid(render(call_object(c), False))]
+                if its and found and erases and cfg.find_path(cfg.position(dl), "exit", lambda b, i, e: any(e == c["i"] for c in erases)) is None:
+                    ok, why = True, "the macro found in sourceMacros (which getMacro consults first) is deleted and its entry erased"
+            if op["k"] == "MemberExpr" and op.get("n", "").endswith("::second"):
+                itv = [x for x in walk(op) if x["k"] == "DeclRefExpr" and x.get("loc")]
+                if itv:
+                    d_it = itv[0]["d"]
+                    cfg = f.cfg
+                    erases = [c for c in f.walk() if is_call(c) and callee(c).split("::")[-1] in ("erase", "clear") and
+                              (any(x["k"] == "DeclRefExpr" and x.get("d") == d_it for x in walk(c)) or callee(c).endswith("::clear"))]
+                    p = cfg.find_path(cfg.position(dl), "exit", lambda b, i, e: any(e == c["i"] for c in erases))
+                    ok = p is None
+                    why = "the entry is erased (or its map cleared) on every path after the delete" if ok else "a path leaves the deleted macro's entry in its map: the next lookup returns a dangling pointer"
+            R.ob("C16-R8", ok, f.q, "delete %s" % txt[:40], f.site(dl),
+                 why if ok else why + " (`#undef __OKL__` deleted a predefined macro found by getMacro() but erased the name only from sourceMacros; its next use crashed)")
+    if n8 < 4:
+        raise AnalysisBroken("preprocessor: only %d deletes of macro objects found" % n8)
+
     # ---- R5 -----------------------------------------------------------------------------------------------------------------
     okl = prog.fn("occa::lang::okl::pathHasValidOklLoopOrdering")
     limits = set()
@@ -286,6 +359,8 @@ def run(ctx):
     R.rule("C16-R2", "macro expansion is guarded against re-entry", floor=5)
     R.rule("C16-R3", "a pointer local initialised with NULL is dereferenced only where an assignment or a non-null test reaches (whole front end)", floor=20)
     R.rule("C16-R4", "a NULL result that signals a reported error is tested (folded into the error state) before it is used", floor=8)
+    R.rule("C16-R7", "a delete inside a counted loop selects its operand with a variable the loop changes", floor=10)
+    R.rule("C16-R8", "a macro object is deleted only through the entry of the map that owns it, which is erased with it", floor=5)
     R.rule("C16-R6", "a parser function that pushes a statement context pops it on every path to a normal exit", floor=8)
     R.rule("C16-R5", "the three-entry dimension arrays are indexed by an OKL loop index that the validator bounds by 3", floor=4)
 
@@ -369,6 +444,17 @@ def run(ctx):
          "expandedMacros is snapshotted before macro.expand() and every released entry is re-inserted (and filed under the new expansion's last token)" if rearm is not None else
          "reading the arguments of a function-like macro releases the enclosing macros (their last token is consumed as an argument) and nothing re-arms them: "
          "`#define F(x) G(x)` / `#define G(x) F(x)` / `F(1)` expands forever")
+
+    # the look-ahead for `(` after a function-like macro name must not run the next token through the pipeline: a token that is processed
+    # (expanded, end-of-expansion records released) and then pushed back is processed twice
+    reent = [c_ for c_ in pi.walk() if c_["k"] == "CXXOperatorCallExpr" and c_.get("op") == ">>" and strip(kids(c_)[1])["k"] in ("UnaryOperator", "CXXThisExpr", "ParenExpr") and
+             any(x["k"] == "CXXThisExpr" for x in walk(kids(c_)[1]))]
+    reent += [c_ for c_ in pi.walk() if is_call(c_) and callee(c_) in (PP + "fetchNext", PP + "processToken")]
+    pushes_back = [c_ for c_ in pi.walk() if is_call(c_) and callee(c_).endswith("::pushInput")]
+    R.ob("C16-R2", not (reent and pushes_back), pi.q, "look-ahead inspects the next source token only", pi.site(reent[0]) if reent else "%s:%d" % (pi.relfile, pi.d["line"]),
+         "the token that may be pushed back comes from getSourceToken(), unprocessed" if not (reent and pushes_back) else
+         "the next token is pulled through the whole preprocessor and pushed back when it is not `(`: it is expanded twice and releases the macros being expanded - "
+         "`#define F(x) x` / `#define A F A` / `A` prints `F F F ...` forever")
 
     front_end_nulls(ctx, R)
 
